@@ -231,7 +231,7 @@ def correspondence(results):
     if len(got) != len(ops):
         raise RuntimeError("driver replied %d lines for %d ops" % (len(got), len(ops)))
     for i, (g, e) in enumerate(zip(got, exp)):
-        if g != e:
+        if g != lib.esc(e):
             dis.append({"result": owner[i], "op": ops[i], "model": g, "impl": e})
     return len(ops), dis
 
@@ -244,10 +244,18 @@ def load_known():
     return json.load(open(path)).get("findings", [])
 
 
-def match_known(known, pid, sig):
+def match_known(known, pid, sig, case=None):
+    """an open finding matches by exact signature, or by signature_regex + a filter on fields of the case"""
     for k in known:
-        if k.get("property") == pid and k.get("status") == "open" and k.get("signature") == sig:
+        if k.get("property") != pid or k.get("status") != "open":
+            continue
+        if k.get("signature") is not None and k.get("signature") == sig:
             return k
+        rx = k.get("signature_regex")
+        if rx and re.search(rx, sig or ""):
+            flt = k.get("case_filter") or {}
+            if all(isinstance(case, dict) and case.get(f) == v for f, v in flt.items()):
+                return k
     return None
 
 
@@ -337,7 +345,7 @@ def main():
         case = r.get("case")
         for f in r["failures"]:
             sig = prop.signature(case, f) if hasattr(prop, "signature") else f
-            k = match_known(known, pid, sig)
+            k = match_known(known, pid, sig, case)
             if k:
                 known_lines.add("KNOWN-FINDING: property=%s %s" % (pid, k.get("what", sig)))
                 continue
